@@ -4,6 +4,7 @@ import (
 	"fmt"
 	"go/token"
 	"go/types"
+	"math/big"
 	"regexp"
 	"sort"
 	"strconv"
@@ -22,7 +23,7 @@ func init() {
 				"C16.topo (the topological listing has no gaps: InsertEvent consumes a topological index only after Store.SetEvent stored the event under it; dbSetEvents writes the key of exactly that index; Bootstrap reads consecutive keys), " +
 				"C16.fields (every field of a persisted type is serialised by its codec — exported, untagged — or is a listed cache that is recomputed; on the pinned tree RoundInfo.decided / queued are neither: known finding F-C16-2), C16.codec (dbSetX marshals with T.Marshal[DB] and dbGetX unmarshals with the matching T.Unmarshal[DB] of the same type), C16.sibling (thorough: the mobile store equals badger_store.go modulo the import path). " +
 				"NOT decided: behaviour after eviction and reopen as a value-level map model; durability; the five dropped store errors reported by errcheck in hashgraph (read one by one: none loses persisted content on this property's paths)."},
-		Rules:    []ruleFunc{c16readthrough, c16writethrough, c16keys, c16codec, func(p *Prog, r *Report) { topoRule(p, r, "C16.topo") }, c16fields, c16lru, func(p *Prog, r *Report) { keyArgRule(p, r, "C16.keyarg") }, func(p *Prog, r *Report) { replayRule(p, r, "C16.replay") }, c16errs},
+		Rules:    []ruleFunc{c16readthrough, c16writethrough, c16keys, c16codec, func(p *Prog, r *Report) { topoRule(p, r, "C16.topo") }, c16fields, c16lru, func(p *Prog, r *Report) { keyArgRule(p, r, "C16.keyarg") }, func(p *Prog, r *Report) { replayRule(p, r, "C16.replay") }, c16errs, c16roll},
 		Thorough: []ruleFunc{siblingRule("C16.sibling")},
 	})
 }
@@ -687,11 +688,11 @@ func keyArgRule(p *Prog, r *Report, rule string) {
 
 // storeErrExempt: store mutations whose error is deliberately not looked at (function:callee -> reason).
 var storeErrExempt = map[string]string{
-	"DivideRounds:SetEvent":     "re-stores an event whose round / timestamp were just computed; both are recomputed by every replay (the event itself was stored by InsertEvent, whose error is checked)",
-	"Bootstrap:SetPeerSet":      "re-seeds the in-memory genesis set read back from the database at the start of the replay; a collision only means it is already there",
-	"NewBadgerStore:SetPeerSet": "seeds the in-memory genesis set of a freshly created store (cannot collide)",
+	"DivideRounds:SetEvent":      "re-stores an event whose round / timestamp were just computed; both are recomputed by every replay (the event itself was stored by InsertEvent, whose error is checked)",
+	"Bootstrap:SetPeerSet":       "re-seeds the in-memory genesis set read back from the database at the start of the replay; a collision only means it is already there",
+	"NewBadgerStore:SetPeerSet":  "seeds the in-memory genesis set of a freshly created store (cannot collide)",
 	"LoadBadgerStore:SetPeerSet": "re-seeds the in-memory set read back from the database",
-	"SetPeerSet:addParticipant": "in-memory bookkeeping of a participant already validated",
+	"SetPeerSet:addParticipant":  "in-memory bookkeeping of a participant already validated",
 }
 
 // C16.errs: a failed write is never silently taken for a successful one: the error returned by a
@@ -748,5 +749,88 @@ func c16errs(p *Prog, r *Report) {
 	}
 	if n == 0 {
 		r.Fail(rule, "store-mutations", "-", "", "no mutating store call found")
+	}
+}
+
+// C16.roll: the rolling window keeps the most recent items. Get / GetItem / Set compute positions
+// from lastIndex and len(items) on the assumption that items ends with the item of index lastIndex
+// and has no gaps: when the window is full, roll() must keep a SUFFIX of the list — a reslice
+// items[k:], a copy of it into a fresh list, or an in-place shift copy(items, items[k:]) followed by
+// items[:len(items)-k] (checked as an identity of linear forms) — never a prefix or a shorter tail.
+func c16roll(p *Prog, r *Report) {
+	const rule = "C16.roll"
+	r.Rule(rule, 1, "RollingIndex.roll keeps a suffix of the window (the newest items, up to the last one)")
+	fn := p.Func(COMM, "RollingIndex", "roll")
+	fItems := p.Field(COMM, "RollingIndex", "items")
+	if fn == nil || fItems == nil {
+		r.Anchor(rule, "common.(*RollingIndex).roll / items")
+		return
+	}
+	isItems := func(v ssa.Value) bool { fv, _ := fieldOf(unwrap(v)); return fv == fItems }
+	suffixOf := func(v ssa.Value) (ssa.Value, bool) { // v = items[k:]  -> k
+		sl, ok := unwrap(v).(*ssa.Slice)
+		if !ok || sl.High != nil || sl.Low == nil || !isItems(sl.X) {
+			return nil, false
+		}
+		return sl.Low, true
+	}
+	n := 0
+	for _, w := range p.writersOf(fItems) {
+		if w.Fn != fn || w.Kind != "store" {
+			continue
+		}
+		n++
+		ok, why := false, "the new window is not a suffix of the old one"
+		val := resolveLocalValue(w.Val)
+		if _, isSuf := suffixOf(val); isSuf {
+			ok = true
+		}
+		if c, isCall := val.(*ssa.Call); isCall && !ok {
+			if bi, isB := c.Call.Value.(*ssa.Builtin); isB && bi.Name() == "append" && len(c.Call.Args) == 2 {
+				fresh := false
+				switch d := resolveLocalValue(c.Call.Args[0]).(type) {
+				case *ssa.MakeSlice:
+					if k, okc := intConst(d.Len); okc && k == 0 {
+						fresh = true
+					}
+				case *ssa.Const:
+					fresh = d.IsNil()
+				}
+				if _, isSuf := suffixOf(resolveLocalValue(c.Call.Args[1])); isSuf && fresh {
+					ok = true
+				}
+			}
+		}
+		if sl, isSl := val.(*ssa.Slice); isSl && !ok && sl.Low == nil && sl.High != nil && isItems(sl.X) {
+			// in-place shift: a dominating copy(items, items[k:]) and High == len(items) - k
+			for _, b := range fn.Blocks {
+				for _, in := range b.Instrs {
+					c, isCall := in.(*ssa.Call)
+					if !isCall {
+						continue
+					}
+					bi, isB := c.Call.Value.(*ssa.Builtin)
+					if !isB || bi.Name() != "copy" || len(c.Call.Args) != 2 || !isItems(c.Call.Args[0]) || !dominates(c, w.Instr) {
+						continue
+					}
+					k, isSuf := suffixOf(resolveLocalValue(c.Call.Args[1]))
+					if !isSuf {
+						continue
+					}
+					e := newLinEnv()
+					lenItems := linVar("len(" + e.varName(sl.X) + ")")
+					d := e.toLin(sl.High, 0).sub(lenItems).addScaled(e.toLin(k, 0), big.NewRat(1, 1))
+					if len(d.c) == 0 && d.k.Sign() == 0 {
+						ok = true
+					} else {
+						why = "after shifting the tail down by k the window is cut to a length that is not len(items)-k (difference: " + d.String() + "): the newest items are dropped, positions computed from lastIndex then name other events"
+					}
+				}
+			}
+		}
+		r.Check(ok, rule, "RollingIndex.roll:keeps-suffix", p.ipos(w.Instr), fnName(fn), "the window keeps items[k:]", why+" — per-participant listings served from the cache are shifted or gapped, silently (no error, so no fallback to the database)")
+	}
+	if n == 0 {
+		r.Fail(rule, "RollingIndex.roll:keeps-suffix", p.pos(fn.Pos()), fnName(fn), "roll does not assign the window")
 	}
 }
